@@ -334,6 +334,46 @@ func enumC16(tier string, part, parts, skip int, deadline time.Time, note func(i
 			}
 		}
 	}
+	// resource ids with characters that need escaping in a URL path: the href the gateway renders for
+	// such a resource, requested as it is, has to lead to that very resource
+	for _, enc := range []string{"json", "jsonflat"} {
+		for i, part := range []string{"a/b", "a%2Fb", "a%b", "a+b", "a=b&c", "a#b", "a;b", "%", "a:b", "a,b", "a@b", "~"} {
+			desc := fmt.Sprintf("rid-part %s %q", enc, part)
+			if !active(desc) {
+				continue
+			}
+			world(enc, "/api/")
+			used++
+			gi++
+			parent := fmt.Sprintf("g%d.p%d", gi, i)
+			child := fmt.Sprintf("g%d.%s", gi, part)
+			w.Svc.Model(child, "a", `1`)
+			w.Svc.Model(parent, "c", soft(child)) // a soft reference is rendered as a bare href in both encodings
+			hp := w.HTTP(mc.HTTPReq{Method: "GET", URL: "/api/" + strings.ReplaceAll(parent, ".", "/")})
+			ok := w.Drain(2000)
+			res.Evaluations++
+			res.Distinct++
+			if !ok || !hp.Done || hp.Rec.Code != 200 {
+				fail("render-mismatch", fmt.Sprintf("%s: GET of the parent: status %d", desc, hp.Rec.Code), desc)
+				continue
+			}
+			// the href of the child as rendered (json: nested object with href; jsonflat: {"href":...})
+			var body map[string]interface{}
+			json.Unmarshal(hp.Rec.Body.Bytes(), &body)
+			h, _ := body["c"].(map[string]interface{})
+			hrefStr, _ := h["href"].(string)
+			if hrefStr != href("/api/", child) {
+				fail("render-mismatch", fmt.Sprintf("%s: href of the child is %q, reference %q (body %s)", desc, hrefStr, href("/api/", child), hp.Rec.Body.String()), desc)
+				continue
+			}
+			hc := w.HTTP(mc.HTTPReq{Method: "GET", URL: hrefStr})
+			ok = w.Drain(2000)
+			want := canonAny(map[string]interface{}{"a": 1})
+			if !ok || !hc.Done || hc.Rec.Code != 200 || mc.CanonJSON(hc.Rec.Body.Bytes()) != want {
+				fail("href-does-not-lead-back", fmt.Sprintf("%s: GET %s: status %d body %q, expected the child %s", desc, hrefStr, hc.Rec.Code, hc.Rec.Body.String(), want), desc)
+			}
+		}
+	}
 	// POST
 	type postCase struct {
 		name, response string
